@@ -4,6 +4,7 @@ CONSTANTS
   R = 4
   Gaps = {1}
   Kinds = {"zero"}
+  ScrapeSets = {}
   MaxClk = 6
   OOOBack = {2}
   Snap = TRUE
